@@ -107,11 +107,30 @@ JoinS(s, j) == IF j > Len(s) THEN "" ELSE s[j] \o (IF j < Len(s) THEN "," ELSE "
 ReqSlots(e, mm) == IF "req" \in DOMAIN e THEN [j \in 1..Len(e.req) |-> MapGet(mm.sc, e.req[j], U0)] ELSE <<>>
 Snap(mm) == [out |-> MOutcome(mm), exits |-> mm.exits, req |-> ReqSlots(Entry, mm)]
 
+\* ---- constant-load sites (C12): the program with constant blocks vs the pseudo-op program ----------------
+\* Every constant-load instruction is replaced by the value it pushes (block indices resolved through the
+\* program's intcblock / bytecblock), block declarations are dropped, resolved pcs are forgotten (labels kept).
+IntBlockOf(P) == LET S == {j \in 1..Len(P) : P[j].op = "intcblock"} IN IF S = {} THEN <<>> ELSE P[CHOOSE j \in S : \A x \in S : j <= x].cs
+ByteBlockOf(P) == LET S == {j \in 1..Len(P) : P[j].op = "bytecblock"} IN IF S = {} THEN <<>> ELSE P[CHOOSE j \in S : \A x \in S : j <= x].cs
+ConstOf(P, ins) ==
+  CASE ins.op \in {"int", "pushint"} -> [op |-> "const", t |-> "u", v |-> ins.b]
+    [] ins.op \in {"byte", "pushbytes", "addr", "method"} -> [op |-> "const", t |-> "b", v |-> ins.b]
+    [] ins.op \in {"intc", "intc_0", "intc_1", "intc_2", "intc_3"} ->
+         [op |-> "const", t |-> "u", v |-> IF ins.i[1] < Len(IntBlockOf(P)) THEN IntBlockOf(P)[ins.i[1] + 1] ELSE <<0 - 1>>]
+    [] ins.op \in {"bytec", "bytec_0", "bytec_1", "bytec_2", "bytec_3"} ->
+         [op |-> "const", t |-> "b", v |-> IF ins.i[1] < Len(ByteBlockOf(P)) THEN ByteBlockOf(P)[ins.i[1] + 1] ELSE <<0 - 1>>]
+    [] OTHER -> [op |-> ins.op, i |-> ins.i, b |-> ins.b, s |-> ins.s]
+ConstView(P) == LET keep == SelectSeq([j \in 1..Len(P) |-> j], LAMBDA j : P[j].op \notin {"intcblock", "bytecblock"})
+                IN [x \in 1..Len(keep) |-> ConstOf(P, P[keep[x]])]
+ConstSitesAgree == ~("constcheck" \in DOMAIN Entry) \/ ~("cmp" \in DOMAIN Text) \/ Text.cmp = 0 \/ Text.cmp >= k
+                   \/ ConstView(Text.teal) = ConstView(Entry.texts[Text.cmp].teal)
+
 \* differential clause of the current text against the texts it is paired with ("" = nothing to report)
 DiffClause ==
   LET me == Snap(m)
       cmpk == IF "cmp" \in DOMAIN Text THEN Text.cmp ELSE 0
-  IN IF me.out.class = "inconclusive" THEN ""
+  IN IF ~ConstSitesAgree THEN "const-sites"
+     ELSE IF me.out.class = "inconclusive" THEN ""
      ELSE IF cmpk > 0 /\ cmpk < k /\ hist[cmpk].out.class # "inconclusive" /\ hist[cmpk].out # me.out THEN "diff-outcome"
      ELSE IF cmpk > 0 /\ cmpk < k /\ hist[cmpk].out.class # "inconclusive" /\ me.out.class # "fail" /\ hist[cmpk].exits # me.exits THEN "diff-exit-stack"
      ELSE IF cmpk > 0 /\ cmpk < k /\ hist[cmpk].out.class # "inconclusive" /\ me.out.class # "fail" /\ hist[cmpk].req # me.req THEN "diff-slots"
@@ -123,7 +142,7 @@ Verdict ==
   LET g == MOutcome(m)
       c0 == Compare(want, g)
       d == DiffClause
-      c == IF c0 \in {"ok", "inconclusive"} /\ d # "" THEN d ELSE c0
+      c == IF d = "const-sites" \/ (c0 \in {"ok", "inconclusive"} /\ d # "") THEN d ELSE c0
   IN "V|" \o ToString(tid) \o "|" \o ToString(cid) \o "|" \o ToString(k) \o "|" \o c
        \o "|" \o want.class \o "/" \o want.why \o "|" \o g.class \o "/" \o m.why
        \o "|" \o JoinS(m.ghost, 1) \o "|" \o ToString(m.steps)
